@@ -885,6 +885,17 @@ func (x *Exec) evalCall(env *SpecEnv, e ECall) Val {
 			}
 		}
 		panic(specErr("entry(): argument must name a parameter of the function"))
+	case "reached":
+		// reached(G): this execution passed the program point of "bind [G @ ...]"
+		// (false when no execution does)
+		id, ok := e.Args[0].(EIdent)
+		if !ok {
+			panic(specErr("reached(): argument must name a bind"))
+		}
+		if g, ok := x.ghostReached[id.Name]; ok {
+			return Val{T: g, Typ: types.Typ[types.Bool]}
+		}
+		return Val{T: tFalse, Typ: types.Typ[types.Bool]}
 	case "inmap":
 		// inmap(m, k): key k is present in the Go map m
 		m := x.evalVal(env, e.Args[0])
